@@ -386,7 +386,7 @@ func RandomLayout(r *rand.Rand, revs int) Layout {
 		Tight:                 r.Intn(3) == 0,
 		ObjStm:                []string{"none", "some", "all"}[r.Intn(3)],
 		LenMode:               []string{"direct", "ind-before", "ind-after", "ind-objstm", "mixed"}[r.Intn(5)],
-		Filter:                []string{"none", "Fl", "AHx", "A85", "FlPNG", "A85Fl", "AHxFl", "chain3", "mixed"}[r.Intn(9)],
+		Filter:                []string{"none", "Fl", "AHx", "A85", "FlPNG", "A85Fl", "AHxFl", "chain3", "mixed", "AHxFlPNG", "A85FlPNG"}[r.Intn(11)],
 		Split:                 1 + r.Intn(4),
 		SplitNoWS:             r.Intn(3) == 0,
 		Numbering:             []string{"dense", "sparse", "permuted"}[r.Intn(3)],
